@@ -40,6 +40,14 @@ pub struct RtConfig {
     pub cost: CostModel,
     /// Maximum number of scheduling steps per execution (livelock guard).
     pub horizon: usize,
+    /// Run every controlled thread on a brand-new OS thread instead of a recycled one, so that
+    /// thread-local state of the code under test cannot leak from one execution into the next.
+    pub fresh_threads: bool,
+    /// Model the pool as `pool_size` long-lived worker threads (as rayon's are): a starting pool
+    /// task is placed, as one more choice, on any idle worker (all workers that have not run
+    /// anything yet are interchangeable), and runs on that worker's own OS thread, which is created
+    /// for this execution only. Needed when the tasks' code keeps per-thread state.
+    pub sticky_workers: bool,
 }
 
 impl RtConfig {
@@ -48,6 +56,8 @@ impl RtConfig {
             pool_size,
             cost,
             horizon: 20_000,
+            fresh_threads: false,
+            sticky_workers: false,
         }
     }
 }
@@ -82,6 +92,17 @@ struct State {
     handles: Vec<OsDone>,
     spawned: [usize; 3],
     trace: Vec<(usize, &'static str)>,
+    /// sticky-worker mode: job of each not yet started pool task, indexed by thread id
+    pending: Vec<Option<(Job, OsDone)>>,
+    /// sticky-worker mode: one dedicated, brand-new OS thread per pool worker slot
+    workers: Vec<Worker>,
+    /// sticky-worker mode: worker slot each started pool task runs on
+    task_worker: Vec<Option<usize>>,
+}
+
+struct Worker {
+    tx: std::sync::mpsc::Sender<(Job, OsDone)>,
+    busy: bool,
 }
 
 pub struct Sched {
@@ -228,6 +249,27 @@ impl Sched {
             && st.threads[next].kind == SpawnKind::PoolTask
         {
             st.running_pool += 1;
+            if self.cfg.sticky_workers {
+                let mut cands: Vec<usize> = (0..st.workers.len()).filter(|&w| !st.workers[w].busy).collect();
+                let fresh = st.workers.len() < self.cfg.pool_size;
+                let n = cands.len() + usize::from(fresh);
+                assert!(n >= 1, "pool task started without an idle worker");
+                let k = if n == 1 { 0 } else { self.ch.free("worker", n) };
+                let w = if k < cands.len() {
+                    cands.swap_remove(k)
+                } else {
+                    st.workers.push(Worker { tx: spawn_worker_os(), busy: false });
+                    st.workers.len() - 1
+                };
+                st.workers[w].busy = true;
+                if st.task_worker.len() <= next {
+                    st.task_worker.resize(next + 1, None);
+                }
+                st.task_worker[next] = Some(w);
+                st.trace.push((w, "on-worker"));
+                let job = st.pending[next].take().expect("pool task without a pending job");
+                st.workers[w].tx.send(job).ok().expect("worker thread gone");
+            }
         }
         st.current = Some(next);
         st.threads[next].cv.notify_all();
@@ -290,7 +332,19 @@ impl Runtime for Sched {
                 SpawnKind::Blocking => 2,
             }] += 1;
             let s2 = sched.clone();
-            let h = spawn_os(Box::new(move || s2.thread_main(id, kind, f)));
+            let job: Job = Box::new(move || s2.thread_main(id, kind, f));
+            let h = if kind == SpawnKind::PoolTask && self.cfg.sticky_workers {
+                let done = OsDone(Arc::new((Mutex::new(false), Condvar::new())));
+                if st.pending.len() <= id {
+                    st.pending.resize_with(id + 1, || None);
+                }
+                st.pending[id] = Some((job, OsDone(done.0.clone())));
+                done
+            } else if self.cfg.fresh_threads {
+                spawn_os_fresh(job)
+            } else {
+                spawn_os(job)
+            };
             st.handles.push(h);
         }
         self.point("spawn", &|| true);
@@ -360,6 +414,9 @@ impl Sched {
         }
         if run && kind == SpawnKind::PoolTask {
             st.running_pool -= 1;
+            if let Some(Some(w)) = st.task_worker.get(id).copied() {
+                st.workers[w].busy = false;
+            }
         }
         st.threads[id].st = St::Finished;
         self.set_finished(id);
@@ -423,6 +480,43 @@ fn spawn_os(job: Job) -> OsDone {
     done
 }
 
+fn signal_done(done: &OsDone) {
+    let (m, cv) = &*done.0;
+    *m.lock().unwrap_or_else(|e| e.into_inner()) = true;
+    cv.notify_all();
+}
+
+/// A brand-new OS thread for one job (no recycling: thread-local state starts empty).
+fn spawn_os_fresh(job: Job) -> OsDone {
+    let done = OsDone(Arc::new((Mutex::new(false), Condvar::new())));
+    let d2 = OsDone(done.0.clone());
+    std::thread::Builder::new()
+        .name("vrt-fresh".into())
+        .stack_size(1 << 20)
+        .spawn(move || {
+            let _ = panic::catch_unwind(AssertUnwindSafe(job));
+            signal_done(&d2);
+        })
+        .expect("spawn OS thread");
+    done
+}
+
+/// A brand-new OS thread that runs the jobs sent to it, in order, until the sender is dropped.
+fn spawn_worker_os() -> std::sync::mpsc::Sender<(Job, OsDone)> {
+    let (tx, rx) = std::sync::mpsc::channel::<(Job, OsDone)>();
+    std::thread::Builder::new()
+        .name("vrt-worker".into())
+        .stack_size(1 << 20)
+        .spawn(move || {
+            while let Ok((job, done)) = rx.recv() {
+                let _ = panic::catch_unwind(AssertUnwindSafe(job));
+                signal_done(&done);
+            }
+        })
+        .expect("spawn OS thread");
+    tx
+}
+
 fn payload_msg(p: &Box<dyn Any + Send>) -> String {
     if let Some(s) = p.downcast_ref::<&str>() {
         s.to_string()
@@ -455,6 +549,9 @@ pub fn run<T>(ch: &Chooser, cfg: RtConfig, body: impl FnOnce() -> T) -> (Option<
             handles: Vec::new(),
             spawned: [0; 3],
             trace: Vec::new(),
+            pending: Vec::new(),
+            workers: Vec::new(),
+            task_worker: Vec::new(),
         }),
         main_cv: Condvar::new(),
         ch: ch.clone(),
@@ -488,6 +585,16 @@ pub fn run<T>(ch: &Chooser, cfg: RtConfig, body: impl FnOnce() -> T) -> (Option<
         }
         while !st.done && !st.aborted {
             st = sched.main_cv.wait(st).unwrap_or_else(|e| e.into_inner());
+        }
+        // pool tasks that were never started (aborted execution): drop their closures on a scratch thread
+        let pending: Vec<(Job, OsDone)> = st.pending.iter_mut().filter_map(|p| p.take()).collect();
+        for (job, done) in pending {
+            assert!(st.aborted, "pool task never started in a completed execution");
+            let h = spawn_os(Box::new(move || {
+                job();
+                signal_done(&done);
+            }));
+            st.handles.push(h);
         }
         std::mem::take(&mut st.handles)
     };
